@@ -1,4 +1,5 @@
 from .p_pot import C02, C14
 from .p_poker import C01, C03, C04, C13
+from .p_eval import C05
 
-REGISTRY = {"C01": C01, "C02": C02, "C03": C03, "C04": C04, "C13": C13, "C14": C14}
+REGISTRY = {"C01": C01, "C02": C02, "C03": C03, "C04": C04, "C05": C05, "C13": C13, "C14": C14}
